@@ -131,6 +131,46 @@ D = {
  "C20-m5": ("C20", "pilota-build/src/plugin/mod.rs ImplDefaultPlugin", "structs whose defaults are all 0 / false / \"\" derive Default", "such a struct with a non-required defaulted field: Default gives None, decode of the empty struct Some(0)"),
  "C20-m6": ("C20", "pilota-build/src/middle/context.rs double_lit_value", "doubles with an exponent computed as mantissa * 10^exp", "an exponent-notation double default whose scaling is inexact (6.02e23, 1.6e-19), compared bit for bit"),
  "C12-m4": ("C12", "pilota/src/thrift/mod.rs async skip_till_depth list arm", "list levels skipped with depth instead of depth - 1", "async skip of an unknown value nested deeper than 64 through lists: sync refuses, async accepts"),
+ "C01-m7": ("C01", "pilota/src/thrift/binary.rs write_field_begin (LinkedBytes writer)", "field header packed into one 24-bit put; `id as u64` sign-extends over the type byte", "binary protocol, LinkedBytes output, a negative field id"),
+ "C01-m8": ("C01", "pilota/src/thrift/rw_ext.rs split_to_checked", "'fail fast on a drained buffer' assertion placed before the length check", "a zero-length string / binary that is the very last thing on the buffer (a top-level value, not inside a struct), sync readers"),
+ "C03-m7": ("C03", "pilota/src/thrift/binary.rs read_map_begin (sync)", "header read in one 6-byte split; the header length is subtracted from the remaining bytes a second time", "a spec-valid map with N entries of e bytes and t bytes behind it where N*(e-1)+t < 6: tiny maps at the very end of the message"),
+ "C03-m8": ("C03", "pilota/src/thrift/compact.rs write_message_begin (LinkedBytes writer)", "sequence id written through unsigned_abs()", "compact envelope on LinkedBytes with a negative sequence id other than i32::MIN"),
+ "C04-m7": ("C04", "pilota/src/thrift/binary.rs write_bytes_vec (LinkedBytes writer)", "large Vec<u8> payloads handed to write_bytes after the length prefix was already written", "binary protocol, LinkedBytes, zero_copy on, a bytes-vec payload of >= 4096 bytes"),
+ "C04-m8": ("C04", "pilota-build/src/codegen/thrift/mod.rs codegen_struct_impl", "structs with more than 32 fields get a statement-style size() that closes the struct frame before sizing the fields", "a generated struct with > 32 fields, compact protocol, nested in another struct or sized twice with one protocol object"),
+ "C06-m7": ("C06", "pilota/src/prost/encoding.rs decode_key", "tag range check with a half-open range", "a record whose field number is exactly 2^29-1"),
+ "C06-m8": ("C06", "pilota-build/src/codegen/protobuf/mod.rs codegen_encoded_len", "fixed-width codecs get a value-independent encoded_len that ignores Option", "an optional float/double/fixed/sfixed field that is absent, in a message embedded length-delimited in another"),
+ "C07-m7": ("C07", "pilota/src/thrift/mod.rs skip_till_depth (default, sync)", "bulk fast path helper; list and set levels no longer count against the depth limit", "more than 64 levels of nesting through lists / sets: accepted instead of refused (and a 400 000-deep chain overflows the stack)"),
+ "C07-m8": ("C07", "pilota/src/thrift/rw_ext.rs read_exact_to_vec", "take(len).read_to_end replaced by a read_buf loop over the spare capacity", "async, a string / binary payload > 65 536 bytes with further data already available behind it"),
+ "C09-m7": ("C09", "pilota/src/thrift/rw_ext.rs checked_container_size + binary readers", "count bound multiplied by a per-type minimum width taken from a table where 0 means 'not fixed'", "sync binary / binary-LE, a container of strings / structs / containers with a count far above the remaining bytes: accepted, generated decoders pre-allocate"),
+ "C09-m8": ("C09", "pilota/src/thrift/mod.rs skip_till_depth + binary.rs fixed_len hook", "fixed-width containers skipped with one advance(count * width) without a bounds check", "sync binary, skip of a list/set/map of 2..16-byte elements cut short (count <= remaining < count*width): Bytes::advance panics"),
+ "C10-m7": ("C10", "pilota/src/prost/message.rs merge_length_delimited", "inlined frame loop without the final 'delimited length exceeded' check", "decode_length_delimited of a frame whose inner field overruns the frame, with more bytes behind the frame"),
+ "C10-m8": ("C10", "pilota-build/src/codegen/protobuf/mod.rs codegen_struct_impl", "merge_field arm of a oneof emitted as a range pattern when last-first+1 == count in declaration order", "a oneof whose numbers are declared out of order (2, 7, 4): field 3 reaches unreachable!() in the oneof merge"),
+ "C02-m7": ("C02", "pilota-build/src/middle/context.rs lit_into_ty (struct-literal arm)", "keys of a struct-literal default are matched against the Rust field name instead of the IDL name", "a struct-typed field with a map-literal default naming an inner field whose IDL name differs from its Rust name (camelCase, pilota.name), that field absent on the wire"),
+ "C02-m8": ("C02", "pilota-build/src/parser/thrift/mod.rs lower_field / lower_field_with_tags", "lowering of the default literal moved into lower_field; the ArgsRecv construction calls the other function", "a service method argument that is optional and has a default, decoded as <Svc><Method>ArgsRecv with the argument absent"),
+ "C05-m7": ("C05", "pilota-build/src/codegen/protobuf/mod.rs codegen_encoded_len", "repeated enum fields whose declared numbers all fit one byte get encoded_len = (key + 1) * len", "a repeated (open) enum field holding an undeclared number outside 0..=127"),
+ "C05-m8": ("C05", "pilota/src/prost/encoding.rs group::merge", "end of group recognised by the field number first, the wire type second", "a group member (or nested group) that reuses the field number of its group; hand-written Message impls only"),
+ "C08-m7": ("C08", "pilota-build/src/codegen/thrift/ty.rs ttype (NewType arm)", "typedef chains are not followed past a named type: the wire type becomes Struct", "a struct field typed by a typedef of a typedef of a base / container type, read from a standard writer"),
+ "C08-m8": ("C08", "pilota/src/thrift/mod.rs skip_till_depth + skip_elements", "bulk skip of string elements reads the length with Buf::get_i32 (big-endian) also under binary-LE", "sync binary-LE, an unknown field that is a list / set of non-empty strings"),
+ "C11-m7": ("C11", "pilota/src/thrift/binary_unsafe.rs skip", "scalar fast path bumps the index without re-anchoring the transport", "unchecked reader with keep_unknown_fields-style capture (skip then get_bytes) of an unknown fixed-size scalar while bytes of earlier fields are still pending"),
+ "C11-m8": ("C11", "pilota/src/thrift/binary_unsafe.rs write_field_begin (shared helper)", "field header built from `id as u32` (sign-extended over the type byte)", "unchecked writer, a negative field id"),
+ "C12-m7": ("C12", "pilota/src/thrift/mod.rs async skip_till_depth + skip_scalar", "scalar container elements skipped by width taken from the binary table, also under compact", "async compact, a skipped list / set / map with double elements (or a bool element byte outside {1,2})"),
+ "C12-m8": ("C12", "pilota/src/thrift/binary.rs TAsyncBinaryProtocol::read_string", "from_utf8_unchecked replaced by from_utf8 on the async side only", "async binary, a skipped or string-decoded binary value that is not valid UTF-8"),
+ "C13-m7": ("C13", "pilota-build/src/resolve.rs lower_type (folded with lower_type_for_hash_key)", "is_args is passed down into container element types", "keep_unknown_fields, a method with a container-of-struct argument / result: that struct gets the 'rest of the buffer' shortcut as a container element"),
+ "C13-m8": ("C13", "pilota/src/thrift/unknown.rs LinkedBytes", "hand-written Eq / Ord / Hash under which all retained byte strings are equal", "a keep_unknown_fields struct as set element / map key, two entries equal on all known fields and different in unknown ones"),
+ "C14-m7": ("C14", "pilota-build/src/resolve.rs lower_type_inner", "the hash_key flag is lost when the walk passes through a list", "a double inside a list in set-element or map-key position: Vec<f64> instead of Vec<OrderedFloat<f64>> (E0277)"),
+ "C14-m8": ("C14", "pilota-build/src/parser/thrift/mod.rs lower_include", "include path handed on without normalize()", "a diamond include in which one route uses '..' (or a subdirectory): the file is lowered twice, every item emitted twice (E0428)"),
+ "C15-m7": ("C15", "pilota-thrift-parser/src/parser/literal.rs", "closing quote found by 'previous character is not a backslash'", "a string literal whose text ends in an even, non-zero number of backslashes"),
+ "C15-m8": ("C15", "pilota-thrift-parser/src/parser/mod.rs blank", "single-space fast path forgets that '#' opens a comment", "a '#' comment after exactly one space in a position with a single blank slot (after '{', '(', '[', between keyword and name)"),
+ "C16-m7": ("C16", "pilota-thrift-parser/src/parser/literal.rs", "hand-written literal scanner slices by byte after a backslash", "a literal containing a backslash followed by a non-ASCII character: char-boundary panic"),
+ "C16-m8": ("C16", "pilota-thrift-parser/src/parser/mod.rs blank", "many1 replaced by self-recursion", "a few thousand consecutive comment / blank pieces (nesting depth 0): stack overflow"),
+ "C17-m7": ("C17", "pilota-build/src/middle/context.rs lit_as_rvalue (mk_map)", "map literals with a repeated key are rebuilt from a std HashMap", "a map literal (const / default) that repeats a key and keeps at least two distinct keys, compared across processes"),
+ "C17-m8": ("C17", "pilota-build/src/codegen/workspace.rs group_defs", "dependencies grouped through a std HashMap; re-exports flattened from its values", "workspace mode + split, a crate depending on at least two other crates in one namespace, compared across processes"),
+ "C18-m7": ("C18", "pilota/src/prost/message.rs Message::merge", "'same key as the previous record' cache compares the leading key byte only", "top level, two adjacent records with different field numbers >= 16 that are congruent mod 16 and have the same wire type"),
+ "C18-m8": ("C18", "pilota-build/src/codegen/protobuf/mod.rs codegen_enum_impl (oneof merge)", "a message-typed oneof member is always decoded into a fresh value", "the same message-typed oneof member twice in the stream: replaced instead of merged"),
+ "C19-m7": ("C19", "pilota/src/thrift/error/transport.rs", "prepend_msg / append_msg store the new text with ptr::write", "async decode failing by truncation at struct nesting depth >= 2 (each level prepends to the error message, the previous heap text leaks)"),
+ "C19-m8": ("C19", "pilota/src/prost/message.rs Message::decode", "messages of >= 1024 bytes are decoded through Box::into_raw; the error path skips Box::from_raw", "a failing top-level decode of a message type with size_of >= 1024 (about 26 string fields)"),
+ "C20-m7": ("C20", "pilota-build/src/middle/context.rs lit_into_ty", "(Int, F32) and (Int, F64) arms merged, the value goes through f32", "a double (field, list element, map value) defaulted by an integer literal above 2^24 with low bits set"),
+ "C20-m8": ("C20", "pilota-build/src/middle/rir.rs variant_of_discr + context.rs", "enum default by number looked up by position when first = 0 and last = n-1", "an enum default given by number on an enum whose members are not declared in ascending order"),
 }
 
 def runs(name):
